@@ -12,7 +12,7 @@ META = dict(
                 'and the emitted list is compared with the list definition of the property statement, written directly on Python lists: first/last/take(n); distinct = first occurrences; '
                 'distinct_until_changed = heads of runs (with and without key_mapper); lag(n) = (items[max(0,i-n)], items[i]); pad_start / pad_end / start_with padding around a non-empty sequence; '
                 'batch(n) = chunks of exactly n plus one non-empty remainder, concatenation = input; sort = stable ordered permutation. One obligation per operator x mode x length x parameter value; the stateful ones also after an aborted first subscription of the same operator objects (retry) and on a second clean subscription.',
-    bounds=dict(quick='N <= 5 items (int or None; distinct: ints in 0..2 because the real code hashes them, plus <= 3 (thorough 4) items picked by the solver from a palette holding different values of equal hash), take n in 0..N+1, lag 1..3, batch 1..N+1, pad size 0..2 value None/explicit; sort N <= 3; long-but-narrow: 9 / 17 groups live at once with the operator placed after a filter (a group live without state while the tables grow), a key with more than 8 different values',
+    bounds=dict(quick='N <= 5 items (int or None; distinct: ints in 0..2 because the real code hashes them, plus <= 3 (thorough 4) items picked by the solver from a palette holding different values of equal hash), take n in 0..N+1, lag 1..3, batch 1..N+1, pad size 0..2 value None/explicit; sort N <= 3; re-used key index: the stateful operators inside split with solver-chosen boundaries and a tumbling roll, N <= 4; long-but-narrow: 9 / 17 groups live at once with the operator placed after a filter (a group live without state while the tables grow), a key with more than 8 different values',
                 thorough='N <= 7 (sort N <= 4, distinct N <= 5)'),
     outside='N above the bound; key mappers that raise; unhashable items for distinct',
     assumptions=['list definitions in vp/props/C10.py transcribe the property statement'],
@@ -126,6 +126,47 @@ def _seqop_group(p, typ, pre, fac, oracle):
     return mk('seq_group_' + op, sig, pre, body)
 
 
+def seqop_reuse(p):
+    """the operator inside split (solver-chosen segment boundaries) or a tumbling roll: the SAME key index is completed and created again for every
+    segment / window, so whatever the operator remembers about a key - in the store or anywhere else - must start afresh: every lifetime's output
+    against the list definition on that lifetime's items"""
+    op, n, arg, ctx = p['op'], p['n'], p.get('arg'), p['ctx']
+    fac, oracle, _, _ = OPS[op]
+    typ = 'int'
+    sig = []
+    for i in range(n):
+        sig += [('c%d' % i, 'bool'), ('v%d' % i, typ)]
+    pre = ['0 <= v%d <= 2' % i for i in range(n)] if op == 'distinct' else []
+
+    def body(a):
+        vals = [a[2 * i + 1] for i in range(n)]
+        if ctx == 'split':
+            seg, cur = [], 0
+            for i in range(n):
+                if i > 0 and a[2 * i]:
+                    cur += 1
+                seg.append(cur)
+            lifet = [[v for s_, v in zip(seg, vals) if s_ == g] for g in range(cur + 1)] if n else []
+            outer = lambda inner: rs.data.split(lambda i: i[0], inner)      # noqa
+        else:
+            seg = [i // 2 for i in range(n)]
+            lifet = [vals[i:i + 2] for i in range(0, n, 2)]
+            outer = lambda inner: rs.data.roll(2, 2, inner)      # noqa
+        log = []
+        inner = [rs.ops.map(lambda i: i[1])] + fac(arg) + [D.tap(log, (lambda x: list(x)) if op == 'batch' else None)]
+        err = []
+        D.src(list(zip(seg, vals))).pipe(rs.state.with_memory_store([outer(inner)])).subscribe(on_error=lambda e: err.append(repr(e)))
+        buckets, wf = D.lifetimes(log)
+        if err or not wf or len(buckets) != len(lifet):
+            return fail(op=op, arg=arg, ctx=ctx, items=list(zip(seg, vals)), problem='key lifecycles', lifetimes_seen=len(buckets), expected_lifetimes=len(lifet), err=err)
+        for li, its in enumerate(lifet):
+            exp = oracle(its, arg)
+            if buckets[li] != exp:
+                return fail(op=op, arg=arg, ctx=ctx + ' (key index re-used by every segment)', lifetime=li, lifetime_items=its, observed=buckets[li], expected=exp)
+        return True
+    return mk('seq_reuse_' + op, sig, pre, body)
+
+
 def sort(p):
     n = p['n']
     sig = [('k%d' % i, 'int') for i in range(n)]
@@ -221,7 +262,7 @@ def seqop_many(p):
     return mk('seq_many_' + op, [('v%d' % i, 'int') for i in range(4)], pre, body)
 
 
-FAMILIES = {'seqop': seqop, 'sort': sort, 'distinct_long': distinct_long, 'distinct_palette': distinct_palette, 'seqop_many': seqop_many}
+FAMILIES = {'seqop': seqop, 'sort': sort, 'distinct_long': distinct_long, 'distinct_palette': distinct_palette, 'seqop_reuse': seqop_reuse, 'seqop_many': seqop_many}
 
 
 def obligations(tier, seed):
@@ -277,6 +318,13 @@ def obligations(tier, seed):
                           bound=dict(items=n, groups=2, values='ints' if op != 'distinct' else 'ints 0..2', arg=arg, mode='group_by')))
     for m in ((9, 17) if q else (9, 17, 33, 70)):
         obs.append(Ob(PROP, 'distinct_long', dict(m=m), budget=b * 2, group='distinct_long', bound=dict(different_values=m, symbolic='a further item in 0..%d, repeated' % m)))
+    for op, arg in (('first', None), ('last', None), ('take', 1), ('distinct', None), ('duc', None), ('lag', 1), ('lag', 2), ('pad_start', [1, None]), ('pad_end', [1, None]), ('start_with', [5, 6]), ('batch', 2)):
+        for ctx in ('split', 'roll22'):
+            for n in ((3, 4) if q else (3, 4, 5)):
+                if op == 'distinct' and n > 4:
+                    continue
+                obs.append(Ob(PROP, 'seqop_reuse', dict(op=op, arg=arg, ctx=ctx, n=n), budget=b, group='seqop: re-used key (' + ctx + ')',
+                              bound=dict(items=n, op=op, arg=arg, context=ctx, boundaries='solver-chosen' if ctx == 'split' else 'every 2 items')))
     for n in ((2, 3) if q else (2, 3, 4)):
         for mode in ('mux', 'group'):
             obs.append(Ob(PROP, 'distinct_palette', dict(n=n, mode=mode), budget=b * 2, group='distinct: equal-hash values',
